@@ -47,3 +47,22 @@ Proof.
   exists sp. split; [exact E1|]. destruct (consistent_inv K HK pk req rep _ E3) as [A [_ [B _]]].
   unfold idxs. rewrite A. exact B.
 Qed.
+
+(** the same for a revocation or set-membership statement: it is only satisfied by an accumulator proof whose
+    element response is the response the referenced signature proof carries for the referenced claim (with
+    C06_membership_proof_extract and C06_link_response the element proved a member is therefore the signed
+    claim), and whose recomputed commitments are covered by the challenge *)
+Theorem C05_accept_revocation_link : forall K, feqb_ok K -> forall (S : schema K) (P : pres K) fs,
+  verify_with K S P fs = Accept ->
+  forall sid ref claim, In (SRev K sid ref claim) S ->
+  exists pid fin hid mp it, lookup sid (proofs K P) = Some (PRev K pid mp fin) /\
+    sig_hidden K S P ref = Some hid /\ lookup claim hid = Some mp /\
+    items K S P = Some it /\ fs (Some it) = true /\ In fin it.
+Proof. exact accept_revocation_link. Qed.
+Theorem C05_revocation_response_mismatch_rejected : forall K, feqb_ok K -> forall (S : schema K) (P : pres K) fs sid ref claim pid sy fin hid mp,
+  In (SRev K sid ref claim) S -> lookup sid (proofs K P) = Some (PRev K pid sy fin) ->
+  sig_hidden K S P ref = Some hid -> lookup claim hid = Some mp -> sy <> mp ->
+  verify_with K S P fs <> Accept.
+Proof. exact revocation_response_mismatch_rejected. Qed.
+Print Assumptions C05_accept_revocation_link.
+Print Assumptions C05_revocation_response_mismatch_rejected.
